@@ -13,6 +13,7 @@ Definition pinned_p_clamps : list string :=
    "kmeans.clamp:bins.masked_fill(zero_mask, 1) ; bins == 0";
    "lfq.log:t.clamp(min=eps).log() | defaults 1e-05";
    "fsq.bound:half_l = (self._levels - 1) * (1 + eps) / 2 ; offset = torch.where(self._levels % 2 == 0, 0.5, 0.0) ; shift = (offset / half_l).atanh() ; return (z + shift).tanh() * half_l - offset | eps default 0.001";
+   "lfq.cosine_sim_linear:x = F.normalize(x, dim=-1) ; w = F.normalize(self.weight, dim=0) ; return x @ w * self.scale";
    "rotate_to:norm_src = src.norm(dim=-1, keepdim=True) ; norm_tgt = tgt.norm(dim=-1, keepdim=True) ; rotated_tgt = efficient_rotation_trick_transform(safe_div(src, norm_src), safe_div(tgt, norm_tgt), src).squeeze(1) ; rotated = rotated_tgt * safe_div(norm_tgt, norm_src).detach()"].
 Lemma pin_p_clamps : p_clamps = pinned_p_clamps.
 Proof. reflexivity. Qed.
